@@ -171,6 +171,10 @@ def run(ctx):
         chk.ok(R4, q, 'repack state machine', detail=f'visited: {sorted(m.seen_effects)}')
     chk.require({'commit', 'unlink-old', 'link', 'unlink-tmp'} <= m.seen_effects, f'repack_pack: expected effects not found, saw {sorted(m.seen_effects)}')
 
+    from .common import transaction_premises
+    RDB = chk.rule('C06.R5', 'transaction premises: commits are explicit, atomic and durable (explicit BEGIN, no autocommit, only PRAGMA journal_mode=wal)', 1)
+    transaction_premises(ctx, chk, RDB)
+
     return chk.finish(
         explanation=('Static typestate analysis on inlined control-flow graphs: durability facts (volatile/durable) per file, '
                      'set durable only by flush followed by fsync of that file\'s descriptor; COMMIT / rename / unlink transitions '
